@@ -166,11 +166,11 @@ def unit_bytes(cfg, body, version):
         return _BYTES[key]
     k = kit(cfg)
     if body[0] == "X":
-        # a picture carrying the OTHER profile's parse code: patched at byte level
-        b, meta = unit_bytes(cfg, "P" + body[1:], version)
-        b = bytearray(b)
-        b[4] = k.other_pic_code
-        _BYTES[key] = (bytes(b), dict(meta, code=k.other_pic_code))
+        # a GENUINE picture of the other profile (its own parse code and its own payload syntax): individually valid,
+        # but not permitted by this sequence's profile
+        other = Config(profile="ld" if cfg.profile == "hq" else "hq", pcm=cfg.pcm, slices=cfg.slices)
+        b, meta = unit_bytes(other, "P" + body[1:], max(version, 2))
+        _BYTES[key] = (bytes(b), dict(meta))
         return _BYTES[key]
     hdr = copy.deepcopy(k.header)
     hdr["sequence_header"]["parse_parameters"]["major_version"] = version
